@@ -185,11 +185,10 @@ def run(ctx):
     ck.rule("R23n", "the native cost is BASE + sum_atoms (len+1)*PER_BYTE + sum_pairs PAIR + 32*MALLOC: one cost update per node kind, in the work loop only")
     th = cr.fn("treehash::tree_hash_costed")
     ck.analysed(th)
-    cost_l = th.local_by_name("cost")
-    if len(cost_l) != 1:
-        raise mir.AnchorMissing("tree_hash_costed: local `cost` not found")
+    from rules.c02 import cost_accumulator
+    cost_l = [cost_accumulator(th)]
     loops = th.loops()
-    cpb = th.local_by_name("cost_per_byte")
+    cpb = []
     special = {cost_l[0]: "COST"}
     # the per-byte rate: the only u64 local assigned from the two SHA256TREE per-byte constants
     for l in range(1, len(th.locals)):
